@@ -1,4 +1,5 @@
-import SemVerif.Props.T2
+import SemVerif.Props.C06
+import SemVerif.Lemmas.TypedFull
 /-!
 # Property C04 — the emitted instruction stack is well-typed
 
@@ -8,6 +9,13 @@ the recorded types are mutually consistent (operand against producer, both sides
 comparisons, call arguments against the recorded signature, let / assignment against the
 declaration, returns against the result type, constants and callees against the global tables of the
 same run).
+
+`C04`: on the model's result the output predicate reports nothing, for every program: for an
+accepted program the rule checker admits (`WellFormedB`: no violation, enforced or not — the domain
+of the property), the typed scan of every function stack reports nothing.  The scan invariant is
+threaded through the T2 induction; the two rules the analyzer does not enforce (argument count, F8;
+type of a nested return, F9) are transported from the rule checker to the stack through the
+abstract reading (`Lemmas/RuleLock.lean`, `Lemmas/TypedFull.lean`).
 
 `C04_scan`: for every accepted program, every function and every instruction of its stack, every
 check passes — except the two checks that the recorded findings F8 (argument count) and F9 (type of
@@ -56,5 +64,86 @@ theorem C04_scan (p : Program) (hnp : (run p).panic = none) (hacc : (run p).erro
     exact ⟨functionBody (pass2 p (pass1 p GState.init)).globals f, by
       rw [List.mem_map]; exact ⟨f, by rw [fns_eq_fnDecls]; exact hf, rfl⟩, rfl⟩
   exact (T2_function hg hn f (hok f hf) he).2.2
+
+theorem zip_roots (p : Program) (gs : GState) : ∀ (l : List FnDecl) (f : FnDecl) (b : Block),
+    (f, b) ∈ l.zip ((l.map (functionBody gs.globals)).map (·.root)) → b = (functionBody gs.globals f).root
+  | [], _, _, h => by simp at h
+  | x :: xs, f, b, h => by
+    simp only [List.map_cons, List.zip_cons_cons, List.mem_cons, Prod.mk.injEq] at h
+    rcases h with ⟨rfl, rfl⟩ | h
+    · rfl
+    · exact zip_roots p gs xs f b h
+
+/-- the typed scan of every function stack of an accepted, rule-abiding program reports nothing -/
+theorem C04_stacks (p : Program) (hnp : (run p).panic = none) (hacc : (run p).errors = []) (hwf : WellFormedB p = true) :
+    ∀ fb ∈ p.fnDecls.zip (run p).roots, typedStack (run p).funcs (run p).consts fb.1 fb.2.context = [] := by
+  have hrel := rel_run p
+  have hg := globRel_of_rel hrel
+  have hn := gnames_of_rel hrel
+  have hok := anaOK_of_no_panic p hnp
+  have hchk : ∀ f ∈ p.fnDecls, checkFn p.rglobals f = [] := by
+    intro f hf
+    unfold WellFormedB refCheck at hwf
+    dsimp only at hwf
+    rw [List.isEmpty_iff, List.append_eq_nil_iff] at hwf
+    exact flatten_eq_nil_mem hwf.2 _ (List.mem_map.mpr ⟨f, hf, rfl⟩)
+  unfold run at hacc ⊢
+  dsimp only at hacc ⊢
+  rw [List.append_eq_nil_iff] at hacc
+  have hfl := flatten_eq_nil_mem hacc.2
+  rw [fns_eq_fnDecls]
+  intro fb hfb
+  obtain ⟨f, b⟩ := fb
+  have hf : f ∈ p.fnDecls := (List.of_mem_zip hfb).1
+  have hb := zip_roots p _ _ f b hfb
+  subst hb
+  unfold AnaOKB at hok
+  rw [List.all_eq_true] at hok
+  have he : (functionBody (pass2 p (pass1 p GState.init)).globals f).errors = [] := by
+    apply hfl
+    rw [List.mem_map]
+    exact ⟨functionBody (pass2 p (pass1 p GState.init)).globals f, by
+      rw [List.mem_map]; exact ⟨f, by rw [fns_eq_fnDecls]; exact hf, rfl⟩, rfl⟩
+  have := typed_function hg hn f (hok f hf) he (hchk f hf)
+  unfold typedStack
+  dsimp only
+  have h2 : typedGo (fun c => assocGet c.name (pass2 p (pass1 p GState.init)).consts == some c)
+      (fun fd => assocGet fd.name (pass2 p (pass1 p GState.init)).funcs == some fd) f.result.toTy
+      (functionBody (pass2 p (pass1 p GState.init)).globals f).root.context TyEnv.init 0 = [] := this
+  rw [h2]; rfl
+
+/-- **C04** — the output predicate of the property holds on the model's result for every program -/
+theorem C04 (p : Program) : P_C04 p (run p) = [] := by
+  unfold P_C04
+  split
+  · rfl
+  · rename_i h
+    have hx : acceptedWF p (run p) = true := by
+      cases hx : acceptedWF p (run p) with
+      | true => rfl
+      | false => rw [hx] at h; simp at h
+    unfold acceptedWF at hx
+    simp only [Bool.and_eq_true] at hx
+    obtain ⟨hnp, he⟩ := (accepted_iff _).mp hx.1
+    have hs := C04_stacks p hnp he hx.2
+    rw [List.flatMap_eq_nil_iff]
+    intro x hx'
+    obtain ⟨⟨f, b⟩, i⟩ := x
+    have hm : (f, b) ∈ p.fnDecls.zip (run p).roots := List.fst_mem_of_mem_zipIdx hx'
+    dsimp only
+    rw [hs (f, b) hm]; rfl
+
+/-- non-vacuity: `exampleT2` is accepted and admitted by the rule set, its function stack is not
+empty, and a stack with a stale operand type is reported by the scan -/
+example : acceptedWF exampleT2 (run exampleT2) = true ∧ ((run exampleT2).roots.map (·.context.length)) ≠ [] := by
+  decide +kernel
+
+/-- the scan is not trivially quiet: an operation whose operands are stamped with different types, and
+a return of a `bool` from a function declared to return `u8`, are both reported -/
+example : (typedGo (fun _ => true) (fun _ => true) (.prim .u8)
+    [.exprOp .plus ⟨.prim .u8, .prim (.u8 1)⟩ ⟨.prim .u16, .prim (.u16 2)⟩ 1, .fnReturn ⟨.prim .bool, .prim (.bool true)⟩]
+    TyEnv.init 0).map (fun pb => (pb.1, pb.2.msg)) =
+    [(0, "operation-operands-differ"), (1, "return-type-differs-from-result-type")] := by
+  decide +kernel
 
 end SemVerif
